@@ -44,6 +44,10 @@ type Type struct {
 	OrderClass string   `json:"orderClass,omitempty"` // "", "ordered", "priority"
 	Funcs      []string `json:"funcs,omitempty"`      // result-less methods
 	HasKind    bool     `json:"hasKind,omitempty"`    // Kind() string
+	// Logger: the type has a field `Log syslog.Logger` tagged `logger:""` (inside the given
+	// carrier chain); the container must set it.
+	Logger   bool     `json:"logger,omitempty"`
+	LogEmbed []string `json:"logEmbed,omitempty"`
 	// Proc: the component is itself an (unordered, observing) ComponentPostProcessor.
 	Proc bool `json:"proc,omitempty"`
 	// Zero: a field-less (zero-size) provider type: no handle, no custom name, one instance.
